@@ -4,6 +4,7 @@
   used to state the round-trip theorems of C07.  Core-only.
 -/
 import Rend.Types
+import Rend.Wire.TextParse
 
 namespace Rend.Wire
 open Rend
@@ -64,19 +65,21 @@ def encodeBin : Cmd → Bytes
 
 def sp : Bytes := [32]
 
+def storeWord : SetKind → Bytes
+  | .set => wSet | .add => wAdd | .replace => wReplace | .append => wAppend | .prepend => wPrepend
+
 /-- The text encoding of a request (no opaque, no quiet flag, no get-and-touch). -/
 def encodeText : Cmd → Bytes
   | .store k c =>
-    Bytes.ofString (match k with | .set => "set" | .add => "add" | .replace => "replace" | .append => "append" | .prepend => "prepend") ++
-      sp ++ c.key ++ sp ++ Bytes.decDigits c.flags ++ sp ++ Bytes.decDigits c.exptime ++ sp ++ Bytes.decDigits c.data.length ++
-      [13, 10] ++ c.data ++ [13, 10]
-  | .get g => Bytes.ofString "get" ++ (g.keys.flatMap fun k => sp ++ k.key) ++ [13, 10]
-  | .delete c => Bytes.ofString "delete" ++ sp ++ c.key ++ [13, 10]
-  | .touch c => Bytes.ofString "touch" ++ sp ++ c.key ++ sp ++ Bytes.decDigits c.exptime ++ [13, 10]
-  | .noop _ => Bytes.ofString "noop" ++ [13, 10]
-  | .quit _ _ => Bytes.ofString "quit" ++ [13, 10]
-  | .version _ => Bytes.ofString "version" ++ [13, 10]
-  | .stat _ => Bytes.ofString "stats" ++ [13, 10]
+    storeWord k ++ sp ++ c.key ++ sp ++ Bytes.decDigits c.flags ++ sp ++ Bytes.decDigits c.exptime ++ sp ++
+      Bytes.decDigits c.data.length ++ [13, 10] ++ c.data ++ [13, 10]
+  | .get g => wGet ++ (g.keys.flatMap fun k => sp ++ k.key) ++ [13, 10]
+  | .delete c => wDelete ++ sp ++ c.key ++ [13, 10]
+  | .touch c => wTouch ++ sp ++ c.key ++ sp ++ Bytes.decDigits c.exptime ++ [13, 10]
+  | .noop _ => wNoop ++ [13, 10]
+  | .quit _ _ => wQuit ++ [13, 10]
+  | .version _ => wVersion ++ [13, 10]
+  | .stat _ => wStats ++ [13, 10]
   | _ => []
 
 end Rend.Wire
